@@ -317,11 +317,50 @@ def shared_join(rng, g, X, colty, order):
     return {"op": "natural_join", "src": a, "b": b, "on": keys, "jointype": rng.choice(["INNER", "LEFT", "RIGHT", "FULL"])}, colty2, order2
 
 
+def renamed_key_join(rng, g, X, colty, order, tables):
+    """join whose key has DIFFERENT names on the two sides (on=[(k, kb)]), the right key then being discarded: the right
+    table's key column must still be reported (it decides which rows match)"""
+    cands = []
+    for t in tables:
+        for c, ty in t["spec"]:
+            for k in order:
+                if colty[k] == ty or {colty[k], ty} <= {"int", "float"}:
+                    cands.append((t, c, k))
+    if not cands:
+        return None
+    t, c, k = rng.choice(cands)
+    kb = "kb" + str(rng.randint(0, 9))
+    tcols = [x for x, _ in t["spec"]]
+    if kb in order or kb in tcols:
+        return None
+    extra = [x for x in tcols if x != c and x not in order]
+    b = {"op": "rename_columns", "src": {"op": "table", "name": t["name"]}, "map": {kb: c}}
+    keep = [kb] + (rng.sample(extra, rng.randint(0, min(2, len(extra)))) if extra else [])
+    b = {"op": "select_columns", "src": b, "columns": keep}
+    tty = dict(t["spec"])
+    colty2, order2 = dict(colty), list(order)
+    for x in keep:
+        colty2[x] = tty[c] if x == kb else tty[x]
+        order2.append(x)
+    s = {"op": "natural_join", "src": X, "b": b, "on": [[k, kb]], "jointype": rng.choice(["INNER", "LEFT", "RIGHT", "FULL"])}
+    if rng.random() < 0.8:
+        cs = [x for x in order2 if x != kb]
+        if rng.random() < 0.5 and len(cs) > 1:
+            cs = rng.sample(cs, rng.randint(1, len(cs)))
+        s = {"op": "select_columns", "src": s, "columns": cs}
+        colty2, order2 = {x: colty2[x] for x in cs}, cs
+    return s, colty2, order2
+
+
 def gen_script(rng, tables, deep, targeted=0.4):
     import pipes
     g = pipes.Gen(rng, tables, features=["extend", "extend", "wextend", "project", "select_rows", "select_columns", "drop_columns", "drop_columns",
                                           "rename_columns", "rename_columns", "map_columns", "order_rows", "natural_join", "natural_join", "concat_rows"])
     s, colty, order = g.pipeline(rng.randint(1, 7 if deep else 5))
+    if rng.random() < 0.25:
+        r = renamed_key_join(rng, g, s, colty, order, tables)
+        if r is not None:
+            s, colty, order = r
     if rng.random() < 0.3:
         r = shared_join(rng, g, s, colty, order)
         if r is not None:
